@@ -15,6 +15,19 @@ namespace Evalexpr.Rs
 @[simp] theorem Flow.run_val (a : ρ) : Flow.run (.val a : Flow ρ ρ) = a := rfl
 @[simp] theorem Flow.run_ret (a : ρ) : Flow.run (.ret a : Flow ρ ρ) = a := rfl
 
+@[simp] theorem Flow.try_ok (a : α) : (Rs.try (.ok a) : Flow (Res β) α) = .val a := rfl
+@[simp] theorem Flow.try_error (e : Err) : (Rs.try (.error e : Res α) : Flow (Res β) α) = .ret (.error e) := rfl
+@[simp] theorem Flow.ret_def (r : ρ) : (Rs.ret r : Flow ρ α) = .ret r := rfl
+@[simp] theorem Flow.panic_def (site : Str) : (Rs.panic site : Flow (Res β) α) = .ret (.error (.panic site)) := rfl
+@[simp] theorem Flow.index_zero (site : Str) (a : α) (l : List α) : (index site (a :: l) 0 : Flow (Res β) α) = .val a := rfl
+@[simp] theorem Flow.index_succ (site : Str) (a : α) (l : List α) (n : Nat) :
+    (index site (a :: l) (n + 1) : Flow (Res β) α) = index site l n := by
+  simp [index]
+@[simp] theorem Flow.index_nil (site : Str) (n : Nat) :
+    (index site ([] : List α) n : Flow (Res β) α) = .ret (.error (.panic site)) := rfl
+@[simp] theorem Flow.swap_remove_def (site : Str) (l : List α) (n : Nat) :
+    (swap_remove site l n : Flow (Res β) α) = index site l n := rfl
+
 /-! ### `M`: everything is stated for `M.run (x >>= f) s` and `M.run x s` -/
 
 theorem M.bind_def (x : M ρ α) (f : α → M ρ β) (s : St) :
@@ -120,6 +133,66 @@ theorem M.run_forIn_push_bind {α γ β : Type} (ev : α → St → Res γ × St
       generalize seqList ev (List.map (·.1) l) s1 = r
       rcases r with ⟨_ | vs, s2⟩ <;> simp
 
+/-- fold with early exit on error: the meaning of a loop whose body updates the loop state or returns an error -/
+def foldE (step : α → σ → Except ε σ) : List α → σ → Except ε σ
+  | [], s => .ok s
+  | a :: l, s => match step a s with
+    | .error e => .error e
+    | .ok s' => foldE step l s'
+
+/-- a loop (in a function without context) whose body is `step` is `foldE step` -/
+theorem Flow.run_forIn_bind {α σ β : Type} (step : α → σ → Res σ) (l : List α) (F : α → σ → Flow (Res β) σ)
+    (hF : ∀ x st (k : σ → Flow (Res β) (Res β)), Flow.run (F x st >>= k) =
+      match step x st with
+      | .error e => .error e
+      | .ok st' => Flow.run (k st'))
+    (st : σ) (k : σ → Flow (Res β) (Res β)) :
+    Flow.run (forIn l st F >>= k) =
+      match foldE step l st with
+      | .error e => .error e
+      | .ok st' => Flow.run (k st') := by
+  induction l generalizing st with
+  | nil => rfl
+  | cons x l ih =>
+    have hb : (forIn (x :: l) st F >>= k) = (F x st >>= fun s => forIn l s F >>= k) := by
+      simp only [forIn_cons]
+      cases F x st <;> rfl
+    rw [hb, hF, foldE]
+    generalize step x st = r
+    rcases r with _ | st'
+    · rfl
+    · exact ih st'
+
+/-- the result of a `loop`: what its body eventually returns, or the out-of-fuel panic -/
+def loopRes (site : Str) : Nat → σ → (σ → Flow (Res β) σ) → Res β
+  | 0, _, _ => .error (.panic site)
+  | n + 1, s, f => match f s with
+    | .val s' => loopRes site n s' f
+    | .ret r => r
+
+theorem loop_eq (site : Str) (n : Nat) (s : σ) (f : σ → Flow (Res β) σ) :
+    (loop site n s f : Flow (Res β) α) = .ret (loopRes site n s f) := by
+  induction n generalizing s with
+  | zero => rfl
+  | succ n ih =>
+    rw [loop, loopRes]
+    cases f s with
+    | val s' => exact ih s'
+    | ret r => rfl
+
+theorem Flow.run_loop_bind (site : Str) (n : Nat) (s : σ) (f : σ → Flow (Res β) σ) (k : α → Flow (Res β) (Res β)) :
+    Flow.run (loop site n s f >>= k) = loopRes site n s f := by
+  rw [loop_eq]; rfl
+
+@[simp] theorem last_concat (l : List α) (x : α) : last (l ++ [x]) = some x := by simp [last]
+@[simp] theorem last_nil : last ([] : List α) = none := rfl
+@[simp] theorem set_last_concat (l : List α) (x y : α) : set_last (l ++ [x]) y = l ++ [y] := by simp [set_last]
+@[simp] theorem pop_back_concat (l : List α) (x : α) : pop_back (l ++ [x]) = l := by simp [pop_back]
+@[simp] theorem iter_next_nil : iter_next ([] : List α) = (none, []) := rfl
+@[simp] theorem iter_next_cons (a : α) (l : List α) : iter_next (a :: l) = (some a, l) := rfl
+@[simp] theorem iter_def (l : List α) : iter l = l := rfl
+@[simp] theorem Flow.unwrap_some (site : Str) (a : α) : (unwrap site (some a) : Flow (Res β) α) = .val a := rfl
+
 /-! ### the pure vocabulary -/
 
 @[simp] theorem len_list (l : List Value) : len l = l.length := rfl
@@ -133,10 +206,9 @@ theorem M.run_forIn_push_bind {α γ β : Type} (ev : α → St → Res γ × St
 @[simp] theorem not_def (a : Bool) : Rs.not a = !a := rfl
 @[simp] theorem is_empty_def (l : List α) : is_empty l = l.isEmpty := rfl
 @[simp] theorem first_def (l : List α) : first l = l.head? := rfl
-@[simp] theorem last_def (l : List α) : last l = l.getLast? := rfl
+theorem last_def (l : List α) : last l = l.getLast? := rfl
 @[simp] theorem get_list (l : List α) (i : Nat) : get l i = l[i]? := rfl
 @[simp] theorem get_map (m : List (Str × β)) (k : Str) : get m k = alookup k m := rfl
-@[simp] theorem fn_call_builtin (b : Builtin) (a : Value) : fn_call b a = b.call a := rfl
 @[simp] theorem fn_call_user (f : UserFn) (a : Value) : fn_call f a = f a := rfl
 @[simp] theorem unwrap_or_some (a d : α) : unwrap_or (some a) d = a := rfl
 @[simp] theorem unwrap_or_none (d : α) : unwrap_or (none : Option α) d = d := rfl
